@@ -19,17 +19,17 @@ func init() {
 		Doc: "every string recorded into the context is a sub-slice of a command-line token or the literal \"true\"; the positional matcher records exactly args[0] and returns args[1:]", Run: mat2})
 	register(&Rule{ID: "MAT-3", Props: []string{"C01", "C09", "C02", "C15"}, Floor: 4,
 		Doc: "every matcher consults the options-ended flag", Run: mat3})
-	register(&Rule{ID: "MAT-4", Props: []string{"C12", "C01"}, Floor: 2,
+	register(&Rule{ID: "MAT-4", Props: []string{"C12", "C01", "C10", "C11"}, Floor: 2,
 		Doc: "every non-matching exit of the option matcher yields the env flag with the vector unchanged; a true verdict carries a matched sub-call's vector", Run: mat4})
 	register(&Rule{ID: "MAT-5", Props: []string{"C12"}, Floor: 2,
 		Doc: "consuming an occurrence never consults the env flag", Run: mat5})
 	register(&Rule{ID: "MAT-6", Props: []string{"C12", "C03", "C10", "C01", "C11"}, Floor: 1,
 		Doc: "the group matcher excludes an env-backed option only after a match that recorded no value for it", Run: mat6})
-	register(&Rule{ID: "MAT-7", Props: []string{"C10", "C11", "C02", "C01"}, Floor: 6,
+	register(&Rule{ID: "MAT-7", Props: []string{"C10", "C11", "C02", "C01", "C06"}, Floor: 6,
 		Doc: "a foreign occurrence is skipped over exactly the tokens an own occurrence of that form consumes; an own match reports the number of tokens it dropped", Run: mat7})
-	register(&Rule{ID: "MAT-8", Props: []string{"C10", "C19", "C01", "C02", "C13", "C11"}, Floor: 3,
+	register(&Rule{ID: "MAT-8", Props: []string{"C10", "C19", "C01", "C02", "C13", "C11", "C06"}, Floor: 3,
 		Doc: "sibling guards: own option only; empty '=' value is no match; separate value starting with '-' is no match; a flag (IsBool of the looked-up option) records \"true\"", Run: mat8})
-	register(&Rule{ID: "MAT-11", Props: []string{"C11", "C01"}, Floor: 4,
+	register(&Rule{ID: "MAT-11", Props: []string{"C11", "C01", "C10", "C12"}, Floor: 4,
 		Doc: "group retry: (false, input) if the first try fails, else try again on each new vector until a try fails, returning the last vector", Run: mat11})
 	register(&Rule{ID: "MAT-12", Props: []string{"C03", "C11"}, Floor: 3,
 		Doc: "matcher loops progress: every back edge adds a positive amount to the loop counter", Run: mat12})
@@ -571,6 +571,200 @@ func allPathsReturnConstAt(b *ssa.BasicBlock, idx int, want bool) bool {
 	return true
 }
 
+// dashPrefixPredicate: f(s string) bool answers "s starts with '-'" and nothing else: each way out is
+// the test itself (strings.HasPrefix(s, "-") or s[0] == '-'), a constant that agrees with that test, or
+// `false` for the empty string.
+func dashPrefixPredicate(f *ssa.Function) bool {
+	if f == nil || len(f.Blocks) == 0 || len(f.Params) != 1 || !isStringType(f.Params[0].Type()) || f.Signature.Results().Len() != 1 {
+		return false
+	}
+	p := f.Params[0]
+	isTest := func(v ssa.Value) bool {
+		if call, ok := v.(*ssa.Call); ok {
+			if g := ir.Static(call); g != nil && ir.IsStdFunc(g, "strings", "HasPrefix") && call.Call.Args[0] == ssa.Value(p) {
+				k, isK := ir.ConstString(call.Call.Args[1])
+				return isK && k == "-"
+			}
+		}
+		if bo, ok := v.(*ssa.BinOp); ok && bo.Op == token.EQL {
+			if ix, isIx := bo.X.(*ssa.Index); isIx && ix.X == ssa.Value(p) {
+				z, isZ := ir.ConstInt(ix.Index)
+				k, isK := ir.ConstInt(bo.Y)
+				return isZ && z == 0 && isK && k == '-'
+			}
+		}
+		return false
+	}
+	empty := map[ir.Edge]bool{}
+	for _, e := range lenOnlyZeroEdges(f, p) {
+		empty[e] = true
+	}
+	ways := ir.ReturnWays(f)
+	if len(ways) == 0 {
+		return false
+	}
+	for _, r := range ways {
+		v := r.Results[0]
+		if isTest(v) {
+			continue
+		}
+		b, isC := ir.ConstBool(v)
+		if !isC {
+			return false
+		}
+		good := false
+		ir.Instrs(f, func(in ssa.Instruction) {
+			if x, isV := in.(ssa.Value); isV && isTest(x) && r.Holds(x, b) {
+				good = true
+			}
+		})
+		if !good && !b && len(empty) > 0 && !r.ReachableUnder(ir.Reach(f.Blocks[0], nil, empty), empty) {
+			good = true
+		}
+		if !good {
+			return false
+		}
+	}
+	return true
+}
+
+// optMatchDeclinesOnly: the option matcher reports "no occurrence" (the vector unchanged) only on the
+// grounds the scan has: nothing to scan, options ended, the token is `--` or does not start with '-', a
+// sub-matcher gave the scan up (consumed 0), or the vector is exhausted. A further ground (a pre-scan,
+// a fast path) can hide an occurrence that is there.
+func (c *Ctx) optMatchDeclinesOnly(fn *ssa.Function, args *ssa.Parameter) {
+	if args == nil {
+		return
+	}
+	cut := map[ir.Edge]bool{}
+	add := func(v ssa.Value, want bool) {
+		for _, e := range ir.EdgesWhere(fn, v, want) {
+			cut[ir.Edge{From: e.From, To: e.To}] = true
+		}
+	}
+	for _, e := range lenOnlyZeroEdges(fn, args) {
+		cut[e] = true
+	}
+	// the scan's own position: the index the sub-matchers are handed
+	mainIdx := map[ssa.Value]bool{}
+	for _, call := range ir.Calls(fn) {
+		cv, ok := call.(*ssa.Call)
+		if !ok {
+			continue
+		}
+		f := ir.Static(cv)
+		if f == nil || f.Pkg != fn.Pkg || f.Signature.Results().Len() != 3 {
+			continue
+		}
+		for _, a := range cv.Call.Args {
+			if b, isB := a.Type().Underlying().(*types.Basic); isB && b.Kind() == types.Int {
+				mainIdx[a] = true
+			}
+		}
+	}
+	isTok := func(v ssa.Value) bool {
+		ld, ok := v.(*ssa.UnOp)
+		if !ok || ld.Op != token.MUL {
+			return false
+		}
+		ia, isIA := ld.X.(*ssa.IndexAddr)
+		if !isIA || ia.X != ssa.Value(args) {
+			return false
+		}
+		if z, isZ := ir.ConstInt(ia.Index); isZ && z == 0 {
+			return true // where the scan starts
+		}
+		return mainIdx[ia.Index]
+	}
+	ir.Instrs(fn, func(in ssa.Instruction) {
+		v, isV := in.(ssa.Value)
+		if !isV {
+			return
+		}
+		if _, f, isF := ir.FieldLoad(v); isF && f == "RejectOptions" {
+			add(v, true)
+		}
+		switch x := v.(type) {
+		case *ssa.Call:
+			if f := ir.Static(x); f != nil && ir.IsStdFunc(f, "strings", "HasPrefix") && isTok(x.Call.Args[0]) {
+				if k, isK := ir.ConstString(x.Call.Args[1]); isK && k == "-" {
+					add(x, false)
+				}
+			}
+			if f := ir.Static(x); f != nil && len(x.Call.Args) == 1 && isTok(x.Call.Args[0]) && dashPrefixPredicate(f) {
+				add(x, false)
+			}
+		case *ssa.BinOp:
+			// tok == "--"
+			if k, isK := ir.ConstString(x.Y); isK && isTok(x.X) && (x.Op == token.EQL || x.Op == token.NEQ) {
+				if k == "--" {
+					add(x, x.Op == token.EQL)
+				}
+				if k == "" {
+					add(x, x.Op == token.EQL) // an empty token is no option
+				}
+			}
+			// tok[0] == '-'
+			if ix, isIx := x.X.(*ssa.Index); isIx && isTok(ix.X) {
+				if z, isZ := ir.ConstInt(ix.Index); isZ && z == 0 {
+					if k, isK := ir.ConstInt(x.Y); isK && k == '-' && (x.Op == token.EQL || x.Op == token.NEQ) {
+						add(x, x.Op == token.NEQ)
+					}
+				}
+			}
+			// len(tok) == 0
+			if lc, isCall := x.X.(*ssa.Call); isCall && len(lc.Call.Args) == 1 && isTok(lc.Call.Args[0]) {
+				if bi, isB := lc.Call.Value.(*ssa.Builtin); isB && bi.Name() == "len" {
+					if k, isK := ir.ConstInt(x.Y); isK {
+						for _, want := range []bool{true, false} {
+							z, okZ := lenCmp(x.Op, 0, k)
+							o, _ := lenCmp(x.Op, 1, k)
+							if okZ && z == want && o != want {
+								add(x, want)
+							}
+						}
+					}
+				}
+			}
+			// consumed == 0 (second result of a sub-matcher), idx < len(args) exhausted
+			isConsumed := false
+			if ex, isEx := x.X.(*ssa.Extract); isEx && ex.Index == 1 {
+				isConsumed = true
+			} else if calls, k := extractPhi(x.X); calls != nil && k == 1 {
+				isConsumed = true // the counts of the two sub-matchers merged
+			}
+			if isConsumed {
+				if z, isZ := ir.ConstInt(x.Y); isZ && z == 0 && (x.Op == token.EQL || x.Op == token.NEQ) {
+					add(x, x.Op == token.EQL)
+				}
+			}
+			if lc, isCall := x.Y.(*ssa.Call); isCall && len(lc.Call.Args) == 1 && lc.Call.Args[0] == ssa.Value(args) && mainIdx[x.X] {
+				if bi, isB := lc.Call.Value.(*ssa.Builtin); isB && bi.Name() == "len" {
+					switch x.Op {
+					case token.LSS:
+						add(x, false)
+					case token.GEQ:
+						add(x, true)
+					}
+				}
+			}
+		}
+	})
+	reach := ir.Reach(fn.Blocks[0], nil, cut)
+	ok, why := true, ""
+	for _, r := range ir.ReturnWays(fn) {
+		if b, isC := ir.ConstBool(r.Results[0]); isC && b {
+			continue
+		}
+		if r.ReachableUnder(reach, cut) {
+			ok, why = false, "the matcher reports no occurrence at "+c.P.Pos(r.Pos())+" on a ground other than: nothing to scan, options ended, a `--` or non-option token, a sub-matcher giving up, the vector exhausted"
+		}
+	}
+	mk := len(c.Obs)
+	c.Check(ok, Q(fn)+":declines-only", fn.Pos(), "no occurrence is reported only on the scan's own grounds", why)
+	c.Scope(mk, "C01", "C10", "C11", "C12")
+}
+
 func mat4(c *Ctx) {
 	fn := c.Fn("internal/matcher", "opt.Match")
 	if fn == nil {
@@ -583,6 +777,7 @@ func mat4(c *Ctx) {
 		}
 	}
 	recv := fn.Params[0]
+	c.optMatchDeclinesOnly(fn, args)
 	nUnchanged, nMatched := 0, 0
 	defer func() {
 		if nUnchanged == 0 || nMatched == 0 {
@@ -1382,6 +1577,118 @@ func relLine(c *Ctx, fn *ssa.Function, pos token.Pos) string {
 	return fmt.Sprintf("+%d", c.P.Fset.Position(pos).Line-c.P.Fset.Position(fn.Pos()).Line)
 }
 
+// subMatcherGivesUpOnly: a sub-matcher answers (false, 0, _) — "stop scanning, nothing here" — only on
+// the grounds the forms have: the name is not a declared option, an `=` value is empty, a separate value
+// is missing or starts with '-', the token is too short to be an option. Any test of a length, of a
+// byte of the token, of emptiness, of a leading dash or of the name lookup is taken as such a ground;
+// a return that can be reached around all of them has a ground of another kind (the option's type, the
+// value's content): an occurrence the spellings allow would be refused.
+// lenMinus: v = len(x) - e (what is left behind a position).
+func lenMinus(v ssa.Value) bool {
+	bo, ok := v.(*ssa.BinOp)
+	if !ok || bo.Op != token.SUB {
+		return false
+	}
+	call, isCall := bo.X.(*ssa.Call)
+	if !isCall {
+		return false
+	}
+	bi, isB := call.Call.Value.(*ssa.Builtin)
+	return isB && bi.Name() == "len"
+}
+
+func (c *Ctx) subMatcherGivesUpOnly(fn *ssa.Function) {
+	cut := map[ir.Edge]bool{}
+	add := func(v ssa.Value, want bool) {
+		for _, e := range ir.EdgesWhere(fn, v, want) {
+			cut[ir.Edge{From: e.From, To: e.To}] = true
+		}
+	}
+	isLen := func(v ssa.Value) bool {
+		call, ok := v.(*ssa.Call)
+		if !ok {
+			return false
+		}
+		bi, isB := call.Call.Value.(*ssa.Builtin)
+		return isB && bi.Name() == "len"
+	}
+	ir.Instrs(fn, func(in ssa.Instruction) {
+		switch x := in.(type) {
+		case *ssa.Extract:
+			if lk, isLk := x.Tuple.(*ssa.Lookup); isLk && lk.CommaOk && x.Index == 1 {
+				add(x, false) // not a declared name
+			}
+		case *ssa.Call:
+			if f := ir.Static(x); f != nil && ir.IsStdFunc(f, "strings", "HasPrefix") {
+				if k, isK := ir.ConstString(x.Call.Args[1]); isK && k == "-" {
+					add(x, true) // a value that looks like an option
+				}
+			}
+			if f := ir.Static(x); f != nil && len(x.Call.Args) == 1 && dashPrefixPredicate(f) {
+				add(x, true)
+			}
+		case *ssa.BinOp:
+			if k, isK := ir.ConstString(x.Y); isK && k == "" && (x.Op == token.EQL || x.Op == token.NEQ) {
+				add(x, x.Op == token.EQL) // an empty value
+			}
+			if k, isK := ir.ConstInt(x.Y); isK && (isLen(x.X) || lenMinus(x.X)) {
+				if o, okO := lenCmp(x.Op, 0, k); okO {
+					add(x, o) // the outcome a too short input produces
+				}
+			}
+			if isLen(x.Y) {
+				switch x.Op {
+				case token.GEQ, token.GTR, token.EQL:
+					add(x, true) // a position at or past the end
+				case token.LSS, token.LEQ, token.NEQ:
+					add(x, false)
+				}
+			}
+			if ix, isIx := x.X.(*ssa.Index); isIx {
+				if z, isZ := ir.ConstInt(ix.Index); isZ && z == 0 {
+					if k, isK := ir.ConstInt(x.Y); isK && k == '-' && (x.Op == token.EQL || x.Op == token.NEQ) {
+						// the token itself: not dash-prefixed; any other string (a separate value): dash-prefixed
+						tokItself := false
+						if ld, isLd := ix.X.(*ssa.UnOp); isLd && ld.Op == token.MUL {
+							if ia, isIA := ld.X.(*ssa.IndexAddr); isIA {
+								_, tokItself = ia.Index.(*ssa.Parameter)
+							}
+						}
+						if tokItself {
+							add(x, x.Op == token.NEQ)
+						} else {
+							add(x, x.Op == token.EQL)
+						}
+					}
+				}
+			}
+			if p, isP := x.X.(*ssa.Parameter); isP {
+				if b, isB := p.Type().Underlying().(*types.Basic); isB && b.Kind() == types.Int {
+					if z, isZ := ir.ConstInt(x.Y); isZ && z == 0 && x.Op == token.LSS {
+						add(x, true) // a negative position
+					}
+				}
+			}
+		}
+	})
+	reach := ir.Reach(fn.Blocks[0], nil, cut)
+	ok, why := true, ""
+	for _, r := range ir.ReturnWays(fn) {
+		if len(r.Results) != 3 {
+			continue
+		}
+		b, isC := ir.ConstBool(r.Results[0])
+		k, isK := ir.ConstInt(r.Results[1])
+		if !isC || b || !isK || k != 0 {
+			continue
+		}
+		if r.ReachableUnder(reach, cut) {
+			ok, why = false, "the scan is given up at "+c.P.Pos(r.Pos())+" on a ground that is not one of: undeclared name, empty `=` value, missing or dash-prefixed separate value, token too short"
+		}
+	}
+	c.Check(ok, Q(fn)+":gives-up-only", fn.Pos(), "(false, 0) only on the grounds the option forms have", why)
+}
+
 func mat8(c *Ctx) {
 	top := c.fnOpt("internal/matcher", "opt.Match")
 	if top == nil {
@@ -1397,6 +1704,7 @@ func mat8(c *Ctx) {
 			continue
 		}
 		c.Mark(fn)
+		c.subMatcherGivesUpOnly(fn)
 		cl := &classes{}
 		perFn[Q(fn)] = cl
 		var args *ssa.Parameter
@@ -1637,6 +1945,15 @@ func mat12(c *Ctx) {
 	swept := map[*ssa.Function]bool{}
 	for _, name := range []string{"opt.Match", "opt.matchShortOpt", "opt.matchLongOpt", "options.try"} {
 		swept[c.fnOpt("internal/matcher", name)] = true
+	}
+	// string accesses of the other packages that handle user input at run time (the scanner has its own
+	// rule, LEX-1)
+	for _, pkg := range []string{"internal/values", "internal/container", "internal/flow", ""} {
+		for _, fn := range c.pkgFuncsDeep(pkg) {
+			if fn.Synthetic == "" {
+				c.stringBounds(fn)
+			}
+		}
 	}
 	for _, pkg := range []string{"internal/matcher", "internal/fsm"} {
 		for _, fn := range c.pkgFuncsDeep(pkg) {
